@@ -17,7 +17,16 @@ import (
 //	"nosync"          everything but SynchronizeInterface
 //	"neither"         neither of the two
 //	"event"           a single event handler (RemovePodSandbox, which is the probe's event)
-var pluginTypes = []string{"all", "nocfg", "nosync", "neither", "event"}
+//	"shutdown"        every handler interface and ShutdownInterface
+var pluginTypes = []string{"all", "nocfg", "nosync", "neither", "event", "shutdown"}
+
+// plugShutdown is fx.Plugin plus a Shutdown handler.
+type plugShutdown struct {
+	*fx.Plugin
+	onShutdown func()
+}
+
+func (p plugShutdown) Shutdown(context.Context) { p.onShutdown() }
 
 type mCfg struct{ fp *fx.Plugin }
 
@@ -93,8 +102,10 @@ type plugNeither struct {
 type plugEventOnly struct{ mEvent }
 
 // pluginObject returns the object handed to stub.New for a plugin type.
-func pluginObject(kind string, fp *fx.Plugin) interface{} {
+func pluginObject(kind string, fp *fx.Plugin, onShutdown func()) interface{} {
 	switch kind {
+	case "shutdown":
+		return plugShutdown{fp, onShutdown}
 	case "nocfg":
 		return plugNoCfg{mSync{fp}, mEvent{fp}, mRest{fp}}
 	case "nosync":
@@ -112,9 +123,9 @@ func pluginObject(kind string, fp *fx.Plugin) interface{} {
 func hasHandler(kind, handler string) bool {
 	switch handler {
 	case "configure":
-		return kind == "" || kind == "all" || kind == "nosync"
+		return kind == "" || kind == "all" || kind == "nosync" || kind == "shutdown"
 	case "synchronize":
-		return kind == "" || kind == "all" || kind == "nocfg"
+		return kind == "" || kind == "all" || kind == "nocfg" || kind == "shutdown"
 	case "create":
 		return kind != "event"
 	case "event":
